@@ -679,4 +679,51 @@ CopyExpect(setup) ==
       [] D("D02_copy_eval_binding_type_assertion") /\ setup \in {"deleteEval", "evalAssigned", "evalAccessor"}
             -> Widen(OnlyValue, {RtErr, "*runtime.TypeAssertionError"}, FALSE, {})
       [] OTHER -> OnlyValue
+-----------------------------------------------------------------------------
+(* Go-side accessors on nested arrays.  Value.Export chooses a Go slice type   *)
+(* from its elements; sibling sub-arrays may export to different Go types of   *)
+(* the same shape.  A value is built from a shape and two leaf kinds (the      *)
+(* leaves of the first and of the second sibling); which Go value comes out is *)
+(* C15's business - here every accessor returns.                               *)
+Leaves == <<"int", "float", "string", "bool", "null", "undefined", "object", "emptyArr">>
+NestShapes == <<"d2", "d3", "d4", "d3d2", "d2pair", "d2x3", "d3x3", "hole", "innerHole", "objOuter", "objInner", "objLeafArr", "flat">>
+ExpoAccessors == Accessors \o <<"GoFuncAny", "GoFuncSlice", "GoFuncNested">>
+ExpoExpect(acc, shape, x, y) ==
+    CASE acc \in {"MarshalJSON", "Object.MarshalJSON", "Object.Set", "GoFuncAny", "GoFuncSlice", "GoFuncNested"} -> AnyReply
+      [] OTHER -> OnlyValue      \* no getter, no scripted conversion: nothing in these values can throw (9.1, 15.4.4.2, 15.4.4.5)
+
+-----------------------------------------------------------------------------
+(* [[DefineOwnProperty]] with PARTIAL property descriptors (8.10, 8.12.9) on   *)
+(* every exotic kind of object (10.6 arguments, 15.4.5.1 Array, 15.5.5.2       *)
+(* String, 15.3.5 Function, 15.10.7 RegExp, bound functions, Error, Date,      *)
+(* bridged Go values) through Object.defineProperty / defineProperties.        *)
+(* A descriptor is [w, e, c : "absent" | "true" | "false", v : "absent" |       *)
+(* "present", g : "absent" | "fn" | "undef", s : "absent" | "fn"].  8.10.5      *)
+(* ToPropertyDescriptor step 9 and 8.12.9 (Reject) can only throw TypeError:   *)
+(* the reply is a value or a TypeError; the probes that follow (read the       *)
+(* descriptor back, get, put, delete) must return.                             *)
+DefTargets == <<"argsMapped0", "argsMapped1", "argsUnmapped2", "argsLength", "argsCallee", "argsDeleted0", "argsNoFormals0",
+                "arrayIndex1", "arrayLength", "arrayNew9", "strObjIndex0", "strObjLength", "strObjNew5",
+                "fnLength", "fnPrototype", "fnName", "fnCaller", "boundLength", "regexpLastIndex", "regexpSource",
+                "errMessage", "errNew", "dateNew", "objExisting", "objNew", "frozenExisting", "sealedExisting", "nonExtNew",
+                "accessorExisting", "nonConfigurableExisting", "globalUndefined", "mathPI",
+                "goMapSIKey", "goMapISKey", "goSliceIndex", "goSliceLength", "goStructField", "goFuncLength">>
+DefHost(t) == t \in {"goMapSIKey", "goMapISKey", "goSliceIndex", "goSliceLength", "goStructField", "goFuncLength"}
+Tri == <<"absent", "true", "false">>
+Descs == {[w |-> w, e |-> e, c |-> c, v |-> v, g |-> g, s |-> s] :
+            w \in {"absent", "true", "false"}, e \in {"absent", "true", "false"}, c \in {"absent", "true", "false"},
+            v \in {"absent", "present"}, g \in {"absent", "fn", "undef"}, s \in {"absent", "fn"}}
+DefRoutes == <<"defineProperty", "defineProperties", "twice">>
+DefExpect(route, target, d) ==
+    LET accessor == d.g # "absent" \/ d.s # "absent"
+        data == d.v # "absent" \/ d.w # "absent"
+    IN  CASE
+          \* [[DefineOwnProperty]] of a bridged map accepts only mode 0o111 data descriptors and then asserts a value that
+          \* a descriptor {writable: true, enumerable: true, configurable: true} does not carry
+             D("D02_gomap_define_without_value_type_assertion") /\ target \in {"goMapSIKey", "goMapISKey"}
+             /\ d.w = "true" /\ d.e = "true" /\ d.c = "true" /\ d.v = "absent" /\ ~accessor
+               -> Widen(AnyReply, {"*runtime.TypeAssertionError"}, FALSE, {})
+          [] DefHost(target) -> AnyReply
+          [] accessor /\ data -> OnlyError("TypeError")                 \* 8.10.5 step 9
+          [] OTHER -> ValueOr({"TypeError"})
 =============================================================================
